@@ -9,7 +9,7 @@ From BV Require Import Base.Prelude Model.Block Model.ForkDB Model.Forkable Mode
   Model.CursorResolver Model.Joining
   Spec.Consumer Spec.Universe Check.Fk_Check Check.Burst_Check Check.C07_Check
   Spec.C09_Spec Spec.C05_Spec Spec.C06_Spec Spec.C07_Spec Spec.C07_Compose_Spec
-  Proofs.C09_Store Proofs.C09_Segment Proofs.C09_Proofs Proofs.C05_Fast Proofs.C05_Forked
+  Proofs.C09_Store Proofs.C09_Segment Proofs.C09_Proofs Proofs.C05_Fast Proofs.C05_Forked Proofs.C06_Lists
   Proofs.Fk.LoopFacts Proofs.Fk.MovingLibDisc
   Proofs.Hub.ConsFacts Proofs.Hub.HubFed Proofs.Hub.LinkedRuns Proofs.Hub.C09_History
   Proofs.C07_ComposeStack Proofs.C07_ComposeHub.
@@ -328,3 +328,78 @@ Section Match.
     - rewrite HKf in EKfP. exact EKfP.
   Qed.
 End Match.
+
+(* ------------------------------------------------------------------ the burst for the cursor, on the consumer *)
+
+Lemma branch_lnk : forall l p, branch_from p l -> lnk (bid p) l.
+Proof.
+  induction l as [|b l IH]; intros p H; [exact I|]. cbn [branch_from] in H. destruct H as (Hp & _ & Hl).
+  cbn [lnk]. split; [exact Hp | apply IH; exact Hl].
+Qed.
+
+Lemma tip_last y : forall l d, tip y l = match l with [] => y | _ => bid (last l d) end.
+Proof.
+  intros l d. destruct l as [|a l]; [reflexivity|].
+  destruct (exists_last (l := a :: l)) as (q & z & E); [discriminate|]. rewrite E, tip_snoc.
+  rewrite last_app_one. reflexivity.
+Qed.
+
+Section Burst.
+  Variable U : list block.
+  Variables first kept : N.
+  Hypothesis U_id : forall b, In b U -> bid b <> 0 /\ bid b <> bparent b.
+  Hypothesis U_uniq : forall x y, In x U -> In y U -> bid x = bid y -> x = y.
+  Hypothesis U_up : forall x y, In x U -> In y U -> bparent x = bid y -> bnum y < bnum x.
+
+  Lemma cursor_burst s V cu L T K Kf burst :
+    VState U first kept s V ->
+    bref L = cu_lib cu -> In L U -> bref T = cu_blk cu -> In T U ->
+    Kf = (if is_undo cu then K ++ [T] else K) -> lnk (bid L) Kf -> Forall (fun x => In x U) Kf ->
+    tip (bid L) Kf = bid T ->
+    blocks_from_cursor s cu = BOk burst ->
+    exists hd sg lo xL hi,
+      last_sent s = Some hd /\ complete_segment (db s) (bref hd) = Some (sg, true) /\ good_seg sg /\
+      sg = lo ++ xL :: hi /\ seg_blk xL = L /\
+      lnk (bid L) (map seg_blk hi) /\ Forall (fun y => In y U) (map seg_blk hi) /\
+      sfold (rev K) burst = Some (rev (map seg_blk hi)).
+  Proof.
+    intros HV HL HLU HT HTU HKf HlKf HKfU Htip Hb.
+    destruct (vstate_facts U first kept U_id U_uniq U_up s V HV) as (_ & _ & W & hd & Hls & _).
+    destruct (vstate_store U first kept U_id U_uniq U_up s V HV) as (HstoreU & Hst).
+    pose proof W as [[Wst _] _].
+    (* the shape of the answer *)
+    pose proof Hb as Hb0. unfold blocks_from_cursor in Hb0.
+    destruct (has_lib (db s)) eqn:Ehl; [|discriminate]. cbn [negb] in Hb0. rewrite Hls in Hb0.
+    destruct (complete_segment (db s) (bref hd)) as [[sg [|]]|] eqn:Eseg; try discriminate.
+    2:{ destruct sg; discriminate. }
+    destruct sg as [|s0 sg0]; [discriminate|]. set (sg := s0 :: sg0) in *.
+    destruct (rn (cu_lib cu) <? snum s0); [discriminate|].
+    destruct (vstate_segment U first kept U_id U_uniq U_up s V hd sg true HV Hls Eseg) as (Hgood & HsU & _).
+    pose proof (Hst hd sg true Hls Eseg) as Hstored.
+    (* the cursor LIB is on the segment *)
+    destruct (block_in (ri (cu_lib cu)) sg) eqn:Elib.
+    2:{ exfalso. destruct (c05_no_lib_no_source_proof s cu) as (_ & _ & _ & _ & H5). exact (H5 hd sg Hls Eseg Elib burst Hb). }
+    destruct (seg_at_L U U_id U_uniq U_up sg Hgood HsU cu L T Kf HL HLU HT HTU Htip Elib)
+      as (lo & xL & hi & Hsplit & HbL & _ & Habove & _ & _ & _ & _ & Hlhi & HhiU).
+    exists hd, sg, lo, xL, hi. split; [exact Hls|]. split; [exact Eseg|]. split; [exact Hgood|]. split; [exact Hsplit|].
+    split; [exact HbL|]. split; [exact Hlhi|]. split; [exact HhiU|].
+    destruct (block_in (ri (cu_blk cu)) sg) eqn:Eblk.
+    - (* fast path *)
+      destruct (c05_fast_path_shape_proof s hd sg cu Hgood) as (_ & _ & Hloop).
+      unfold fuel_of in Hb0. rewrite (Hloop _ Eblk Elib) in Hb0. injection Hb0 as <-.
+      pose proof (c05_fast_path_consumer_proof s hd sg cu [] false Hgood) as Hc. cbv zeta in Hc.
+      cbn [app length] in Hc.
+      rewrite (fast_match U U_id U_uniq U_up sg Hgood HsU cu L T K Kf HL HLU HT HTU HKf HlKf HKfU Htip Elib Eblk), Habove in Hc.
+      apply (cons_fold_sfold _ _ _ (Hc ltac:(intros _; unfold stack_links; cbn; exact I))).
+    - (* forked path *)
+      destruct (c05_forked_path_proof s hd sg cu Wst Hstored) as (Hex & _ & _ & _ & Hburst).
+      destruct (Hburst Elib Eblk) as [Hserved Hbroken].
+      destruct Hex as [(path & j & B)|Hbr]; [|rewrite (Hbroken Hbr) in Hb0; discriminate].
+      destruct (Hserved path j B) as (je & Hje & _).
+      pose proof (c05_resume_partial_proof s hd sg cu path j je [] false Wst Hstored Hgood Elib Eblk B Hje) as Hc. cbv zeta in Hc.
+      destruct (Hc ltac:(intros _; unfold stack_links; cbn; exact I)) as (evs & Hevs & Hfold).
+      rewrite Hevs in Hb0. injection Hb0 as <-. cbn [app length] in Hfold.
+      rewrite <- (forked_match U U_id U_uniq U_up s sg Hgood Hstored HsU HstoreU Wst cu L T K Kf HL HLU HT HTU HKf HlKf HKfU Htip Elib hd path j je Eblk B Hje), Habove in Hfold.
+      exact (cons_fold_sfold _ _ _ Hfold).
+  Qed.
+End Burst.
